@@ -52,7 +52,11 @@ CHECKS = {
        'third-party lock delays drawn from the engine, symbolic UID counters - dict backend: real MailboxData.append/copy/move with an '
        'exclusion-preserving lock stub; maildir backend: real MailboxData.append/copy/move, UidList.with_write, file_read/file_write and '
        'FileLock on an in-memory file system with a symbolic next-UID, a stub Maildir store and a third party holding the lock file: '
-       'UIDs pairwise distinct, above all earlier ones, each denoting the message it was reported for, no record lost.',
+       'UIDs pairwise distinct, above all earlier ones, each denoting the message it was reported for, no record lost. Mailbox-level '
+       'histories on maildir: the real maildir MailboxSet of one live session (both layouts) on an in-memory directory tree, depth 2 (quick) / 3 '
+       '(thorough) over RENAME, DELETE, CREATE, APPEND on three names from two folders with one message each: the UIDVALIDITY a mailbox '
+       'reports is its uidlist\'s, a (UIDVALIDITY, UID) pair never denotes two messages over the history, RENAME takes messages, UIDs '
+       'and UIDVALIDITY along, the listed names follow a set-of-names model.',
   note=TRUST + 'Outside: maildir UID assignment across restart/crash (C15), more than 3 concurrent additions, interleaving of two '
        'processes at single file-system-call granularity, UIDVALIDITY collision of a re-created mailbox.',
   technique='symbolic execution of the real code with z3; unbounded symbolic UID counter, ghost set of assigned UIDs'),
@@ -105,7 +109,10 @@ CHECKS = {
        'file system whose answers are forks: every path passed to a file-system call, normalised lexically, stays inside the user root, '
        'and removal/rename/creation targets are strictly inside it. The same for all Unicode names of <= 2 (quick) / 3 (thorough) code '
        'points, with unicodedata.normalize modelled by the classes of normal forms that contain path syntax (tables computed from the '
-       'interpreter at run time).',
+       'interpreter at run time). Two identities in one process: the real maildir MailboxSet of alice and bob on one in-memory directory '
+       'tree, alice\'s folders open; bob runs get_mailbox + listing, delete_mailbox or rename_mailbox with a symbolic name of 0..6 (quick) / '
+       '0..8 (thorough) characters: no path outside bob\'s root is touched, the object he gets is none of alice\'s, lies in his root and '
+       'lists none of her messages, her tree is unchanged.',
   note=TRUST + 'os/os.path/open/Maildir are stubs; os.path.join is a sym-aware port of posixpath.join. Lexical confinement only '
        '(no symlinks). Outside: the real file system; the dict half (one MailboxSet per identity, structural).',
   technique='symbolic execution of the real path-construction code with z3, recording stub file system, lexical confinement oracle'),
@@ -172,7 +179,8 @@ CHECKS = {
        'complete with OK stores none, NO/BAD changes nothing. Two genuine defects are recorded as known findings (MOVE cancellation window, '
        'MULTIAPPEND partial) and reported as KNOWN-FINDING; any other violation is a VIOLATION.',
   note=TRUST + 'Lock acquisition is the only suspension point of the dict backend; the lock stub over-approximates contention. Outside: '
-       'process kill and maildir (C15), more than 3 commands interleaving. Also: 2-3 real storage coroutines really interleaving on an '
+       'process kill and maildir (C15), more than 3 commands interleaving. Also: the selected mailbox deleted or renamed by another session '
+       'followed by one of 10 commands (NO/BAD => nothing stored, OK APPEND => everything stored); 2-3 real storage coroutines really interleaving on an '
        'exclusion-preserving lock stub (conservation oracle), and the byte stream of MULTIAPPEND ({n} and {n+}), UID EXPUNGE, MOVE and STORE '
        'cut at every position (solver-drawn index, symbolic literal bytes) followed by end of stream on the real connection loop: an '
        'incomplete command leaves the mailboxes unchanged.',
@@ -198,7 +206,7 @@ CHECKS = {
   text='Assume/guarantee decomposition on the real code: (1) dict MailboxData.update_selected(wait_on) started on a real asyncio loop from '
        'change logs produced by <= 2 (quick) / 3 (thorough) mutations with the idler\'s consumed position a symbolic integer 0..highest (or '
        'never synced): behind => it completes without a further signal, proved per path by z3; (1b) histories of <= 3 (quick) / 4 (thorough) '
-       'mutators (9 kinds, incl. repeated flag changes of one message) from a symbolic UID counter and a symbolic change-log start, the idler '
+       'mutators (13 kinds, incl. repeated flag changes of one message and deliveries that carry \\Recent) from a symbolic UID counter and a symbolic change-log start, the idler '
        'consuming the log at any point and the rest landing while it is not parked: a stale view => the re-armed wait completes without a '
        'further signal and the view then equals the mailbox; (2) each mutator (append, update, delete, '
        'copy-in, move-out, claim_recent) sets a listener registered with or_event; (3) the diff after wake-up is C01/C02; (4) the real '
@@ -224,8 +232,8 @@ CHECKS = {
        '(<= 2 stored scripts with symbolic names and bytes, symbolic active choice): one and two commands with symbolic operands agree '
        'with a dict + optional-active-name model in response code, returned bytes/listing and post-state; another user\'s set is untouched; '
        '(c) histories of <= 3 (quick) / 4 (thorough) operations on one real ManageSieve connection, including a second connection of the same '
-       'user logging in meanwhile and re-login, from an empty or non-empty store: a fresh connection lists and gets exactly what a plain map '
-       'says.',
+       'user logging in meanwhile and re-login, from an empty or non-empty store (names include one that is a substring of another): a '
+       'fresh connection lists and gets exactly what a plain map says.',
   note=TRUST + 'Names are compared only for equality (1 symbolic character each). Outside: CHECKSCRIPT/sieve compiler, STARTTLS, other backends.',
   technique='symbolic execution of the real ManageSieve code with z3 against a map model (inductive step from an arbitrary map state)'),
  'C18': dict(
